@@ -2,7 +2,7 @@ SPECIFICATION Spec
 CONSTANTS
   Ms = {2, 4, 8, 16, 32, 64, 128, 256, 512, 1024, 2048}
   RecThreshold = 2048
-  Layout = "reim"
+  Layout = "cplx"
   GenMode = TRUE
 INVARIANTS Dump
 CHECK_DEADLOCK FALSE
